@@ -212,6 +212,21 @@ class MultiWorld:
             self.real.append(real); self.poplogs.append(log)
         self.saved = ports.sleep, ports.random.shuffle
         world = self
+        # MultiPort._receive (the documented hook a port fills its deque from) adds what it collected to the MultiPort's own deque, under the
+        # MultiPort's lock: one access, however the additions are spelt (see DequeProxy.collect)
+        inner, own = multi._receive, multi._messages
+
+        def bracketed_receive(*a, **kw):
+            own.collect()
+            try:
+                r = inner(*a, **kw)
+            except BaseException:
+                own.real.extend(own.batch or [])      # an exception (or the teardown of this thread): no further yield point
+                own.batch = None
+                raise
+            own.flush()
+            return r
+        multi._receive = bracketed_receive
 
         def fake_sleep():
             sc.yield_point('sleeping')
@@ -325,6 +340,23 @@ def execute_multi(kind, progs, policy, max_steps):
                                 first.append(k)
                         if first != [k for k in mine_ if k in first]:
                             fail = ('order', 'MultiPort scenario: messages of sender %d on port %d left queue %d in the order %r, sent %r (schedule %r)' % (t, e, d, seen, mine_, trace))
+        if fail is None:
+            # what ONE receiver gets from ONE sender (on one port) comes in the order it was sent
+            for t in range(len(progs)):
+                got_t = []
+                for r in sc.results[t]:
+                    if r[0] == 'got' and r[1] is not None:
+                        got_t.append(key(r[1]))
+                    elif r[0] == 'list':
+                        got_t += [key(m) for m in r[1]]
+                got_t += [key(m) for m in partial.get(t, [])]
+                for u in range(len(progs)):
+                    for e in range(3):
+                        mine_ = [key(c) for tt, pidx, _, c in sent if tt == u and pidx == e]
+                        idx = [mine_.index(k) for k in got_t if k in mine_]
+                        if any(a > b for a, b in zip(idx, idx[1:])):
+                            fail = ('receiver-order', 'MultiPort scenario: thread %d received the messages of sender %d (sent on port %d as %r) in the order %r (schedule %r)'
+                                    % (t, u, e, mine_, [k for k in got_t if k in mine_], trace))
         if fail is None:
             objs = {id(m) for _, _, m, _ in sent}
             if any(id(m) in objs for m in received):
@@ -589,6 +621,7 @@ def run(out):
     multi_progs = [
         [[('send', m1, 1)], [('send', m2, 2)], [('recv', 0, 0)], [('recv', 0, 0)]],                      # fan-in, two pollers
         [[('send', m1, 1), ('send', m2, 1)], [('recv', 1, 0)], [('iterp', 0)]],                           # fan-in, order from one sender
+        [[('send', m1, 1), ('send', m2, 1), ('send', m3, 1)], [('recv', 0, 0), ('recv', 0, 0)], [('recv', 0, 0)]],   # fan-in, three in a row, two pollers
         [[('send', m1, 0)], [('recv', 0, 1)], [('recv', 0, 2)], [('recv', 0, 1)]],                        # fan-out
         [[('send', m1, 0)], [('send', m2, 0)], [('recv', 1, 1), ('recv', 0, 1)], [('iterp', 2)]],          # fan-out, two senders: one order on both sub-ports
         [[('send', m1, 0), ('send', m2, 0)], [('iterp', 1)], [('recv', 0, 2), ('recv', 1, 2)]],            # fan-out, order from one sender
@@ -596,7 +629,9 @@ def run(out):
         [[('send', m1, 0), ('send', m2, 1)], [('iterp', 0)], [('recv', 0, 2), ('recv', 0, 0)]],
     ]
     for progs in multi_progs:
-        jobs.append(('explore', 'multi', progs, (1 if quick else 2, 140, 700 if quick else 20000), rng.randrange(1 << 30)))
+        # the three-in-a-row program needs two preemptions (the sender held back after two sends, a poller between its two looks at the queue)
+        deep = len(progs[0]) == 3
+        jobs.append(('explore', 'multi', progs, ((2 if deep else 1) if quick else (3 if deep else 2), 140, (4000 if deep else 700) if quick else 20000), rng.randrange(1 << 30)))
         jobs.append(('random', 'multi', progs, (40 if quick else 1000, 300), rng.randrange(1 << 30)))
     explored = {}
     for (kind, mode, exhausted, nruns), rec in core.pmap(job, jobs):
